@@ -7,6 +7,7 @@ import (
 	"github.com/paulmach/orb"
 	"github.com/paulmach/orb/clip"
 
+	"verif/internal/exact"
 	"verif/internal/gen"
 	"verif/internal/h"
 	"verif/internal/refmodel"
@@ -553,6 +554,27 @@ func init() {
 					for i := range ls {
 						ls[i] = orb.Point{float64(r.Range(-mag, mag)), float64(r.Range(-mag, mag))}
 					}
+					if idx%7 == 3 && n >= 3 {
+						// tiny rings far from the origin: every vertex within a few dozen float64 steps of a decimal lon/lat
+						// point (differences from the first vertex are then exact, so the sign of the area is well defined)
+						base := orb.Point{[]float64{13.405, -122.4194, 0.1, 1e7 + 0.3}[r.Intn(4)], []float64{52.52, 37.7749, -0.7, 5e6 + 0.1}[r.Intn(4)]}
+						for i := range ls {
+							p := base
+							for k := 0; k < 2; k++ {
+								for s := r.Range(-40, 40); s != 0; {
+									if s > 0 {
+										p[k] = math.Nextafter(p[k], math.Inf(1))
+										s--
+									} else {
+										p[k] = math.Nextafter(p[k], math.Inf(-1))
+										s++
+									}
+								}
+							}
+							ls[i] = p
+						}
+						c.Count("rings_of_a_few_dozen_ulps", 1)
+					}
 					snap := cloneLS(ls)
 					var pv interface{}
 					pv, st := h.Catch(func() { ls.Reverse() })
@@ -607,17 +629,8 @@ func init() {
 
 // exactSign is the sign of the integer shoelace sum (coordinates are integers below 2^21, so int64 is exact).
 func exactSign(r orb.Ring) int {
-	var s int64
-	n := len(r)
-	for i := 0; i < n; i++ {
-		a, b := r[i], r[(i+1)%n]
-		s += int64(a[0])*int64(b[1]) - int64(b[0])*int64(a[1])
+	if len(r) == 0 {
+		return 0
 	}
-	switch {
-	case s > 0:
-		return 1
-	case s < 0:
-		return -1
-	}
-	return 0
+	return exact.Area2(lsToP(r)).Sign() // exact rational shoelace, any float64 coordinates
 }
